@@ -18,7 +18,10 @@
 (***************************************************************************)
 EXTENDS Naturals, Sequences, FiniteSets, SequencesExt, TLC, Json, IOUtils
 
-CONSTANTS MaxChain, Starts, Stride
+CONSTANTS MaxChain, Starts,
+          EmitFrom,  \* chains with at least this many steps are printed for the replay
+          Hows,      \* the lookup / listing primitives used in chains (subset of getitem, get, items, values)
+          Mutant     \* "none", or a deliberately wrong rule that TLC must reject (self-test of the invariants)
 
 (* the fixture: groups and datasets, and which nodes carry a metadata object *)
 Groups   == {<<>>, <<"g">>, <<"g", "h">>}
@@ -43,7 +46,7 @@ Down(W, q) ==      \* a node q below W.n handed out by W (lookup, listing, visit
 
 Prims(W) ==
     (IF W.n \in Groups
-     THEN {<<how, q>> : how \in {"getitem", "get", "items", "values"}, q \in Kids(W.n)}
+     THEN {<<how, q>> : how \in Hows, q \in Kids(W.n)}
           \cup {<<"visit", q>> : q \in Below(W.n)}
      ELSE {})
     \cup {<<"query", q>> : q \in {x \in WithMeta : Under(W.n, x)}}
@@ -55,7 +58,10 @@ Nav(W, p) ==
       [] p[1] = "query" -> IF p[2] = W.n THEN W ELSE Down(W, p[2])
       [] p[1] = "parent" ->
             IF "local" \in W.f
-            THEN (IF W.up = NoUp THEN REFUSED ELSE W.up)
+            THEN (IF W.up = NoUp THEN REFUSED
+                  \* the remembered parent, carrying every restriction added to W since it was handed out
+                  ELSE IF Mutant = "parent_as_remembered" THEN W.up
+                  ELSE [W.up EXCEPT !.f = @ \cup W.f])
             ELSE [n |-> IF W.n = <<>> THEN <<>> ELSE Parent(W.n), f |-> W.f, lr |-> NoLr, up |-> NoUp]
       [] p[1] = "restrict" ->
             LET fl == p[2][1] IN
@@ -63,21 +69,17 @@ Nav(W, p) ==
              lr |-> IF fl = "local" THEN W.n ELSE W.lr,
              up |-> IF fl = "local" THEN NoUp ELSE W.up]
 
-(* a chain: [start, steps, states] where states[j] is the wrapper after j steps (states[1] = start) *)
-RECURSIVE Chains(_)
-Chains(k) ==
-    IF k = 0 THEN {[steps |-> <<>>, states |-> <<Start(s[1], s[2])>>] : s \in Starts}
-    ELSE LET prev == Chains(k - 1) IN
-         prev \cup UNION {{[steps |-> Append(ch.steps, p),
-                              states |-> Append(ch.states, Nav(ch.states[Len(ch.states)], p))]
-                                : p \in Prims(ch.states[Len(ch.states)])}
-                           : ch \in {x \in prev : Len(x.steps) = k - 1 /\ x.states[Len(x.states)] # REFUSED}}
-
-AllChains == Chains(MaxChain)
-
+(* a chain: [steps, states] where states[j] is the wrapper after j - 1 steps (states[1] = start).   *)
+(* Chains are the states of a state machine: one navigation primitive per step, up to MaxChain.   *)
 VARIABLE chain
-Init == chain \in AllChains
-Next == UNCHANGED chain
+LastW(ch) == ch.states[Len(ch.states)]
+Init == chain \in {[steps |-> <<>>, states |-> <<Start(s[1], s[2])>>] : s \in Starts}
+Extend(p) ==
+    chain' = [steps |-> Append(chain.steps, p), states |-> Append(chain.states, Nav(LastW(chain), p))]
+Next ==
+    /\ Len(chain.steps) < MaxChain
+    /\ LastW(chain) # REFUSED
+    /\ \E p \in Prims(LastW(chain)) : Extend(p)
 Spec == Init /\ [][Next]_chain
 
 c == chain
@@ -100,15 +102,13 @@ Expect(W) ==
      upward |-> IF "local" \in W.f THEN "refused" ELSE "allowed",
      parent |-> IF Nav(W, <<"parent", <<>>>>) = REFUSED THEN "refused" ELSE "allowed"]
 
-Export ==
-    /\ TLCGet("stats").generated >= 0
-    /\ LET cs == SetToSeq(AllChains) n == Len(cs) IN
-       JsonSerialize(IOEnv.OUT_FILE,
-         [k \in 1..(((n - 1) \div Stride) + 1) |->
-            LET ch == cs[(k - 1) * Stride + 1] IN
-            [steps |-> ch.steps,
-             nodes |-> [j \in DOMAIN ch.states |-> ch.states[j].n],
-             flags |-> [j \in DOMAIN ch.states |-> SetToSeq(ch.states[j].f)],
-             expect |-> IF ch.states[Len(ch.states)] = REFUSED THEN [mutate |-> "-", read |-> "-", upward |-> "-", parent |-> "-"]
-                        ELSE Expect(ch.states[Len(ch.states)])]])
+(* every chain (state) is printed with the expected node and flags per step and the expected outcome  *)
+(* of every kind of attempt at its end; the harness executes them on the real wrappers                *)
+Case(ch) ==
+    [steps |-> ch.steps,
+     nodes |-> [j \in DOMAIN ch.states |-> ch.states[j].n],
+     flags |-> [j \in DOMAIN ch.states |-> SetToSeq(ch.states[j].f)],
+     expect |-> IF LastW(ch) = REFUSED THEN [mutate |-> "-", read |-> "-", upward |-> "-", parent |-> "-"]
+                ELSE Expect(LastW(ch))]
+Emit == (Len(chain.steps) < EmitFrom) \/ PrintT(<<"CASE", ToJson(Case(chain))>>)
 =============================================================================
